@@ -269,8 +269,8 @@ def _agree(ctx, gates):
 def _closure(ctx, m):
     zl = _zinc.ladder_check(_Quiet(ctx), 'C07.D4', 'zincdumper', 'zinc')
     jl = _zinc.ladder_check(_Quiet(ctx), 'C07.D4', 'jsondumper', 'json')
-    zf = m.func('zincdumper', 'dump_scalar')
-    jf = m.func('jsondumper', 'dump_scalar')
+    zf = m.func('zincdumper', 'dump_scalar', 'nested')
+    jf = m.func('jsondumper', 'dump_scalar', 'nested')
     zlad, jlad = TP.ladder(zf), TP.ladder(jf)
 
     def handled(lad, idx):
